@@ -13,9 +13,10 @@ import copy as _copy
 
 
 class State:
-    __slots__ = ("weighted", "nodes", "edges", "hgmd")
+    __slots__ = ("weighted", "nodes", "edges", "hgmd", "replace_hgmd")
 
     def __init__(self, weighted, nodes=None, edges=None, hgmd=None):
+        self.replace_hgmd = False  # (used by C07's content generator only)
         self.weighted = weighted
         self.nodes = nodes if nodes is not None else {}
         self.edges = edges if edges is not None else {}
